@@ -262,6 +262,19 @@ def run(ctx) -> list[Inst]:
             continue
         nn = cfg.node_of(n) if isinstance(n, ast.stmt) else None
         if isinstance(n, ast.Raise) and nn is not None and cfg.dominates(parse_node, nn) and nn is not parse_node:
+            # ... unless it hangs on `<tree>.exception` alone: ANTLR sets ctx.exception only on the rule context that
+            # CAUGHT a RecognitionException; in-line repairs (a missing token conjured up, a stray one deleted - what
+            # happens at a truncated end of file) and errors caught deeper down leave the start rule's field None
+            cur_ = pm.get(id(n))
+            guard_ = None
+            while cur_ is not None and not isinstance(cur_, (ast.FunctionDef, ast.AsyncFunctionDef)):
+                if isinstance(cur_, ast.If):
+                    guard_ = cur_
+                    break
+                cur_ = pm.get(id(cur_))
+            if guard_ is not None and '.exception' in stmt_text(guard_.test, 200) \
+                    and 'SyntaxErrors' not in stmt_text(guard_.test, 200):
+                continue
             post = True
         if isinstance(n, ast.Assign) and isinstance(n.targets[0], ast.Attribute) \
                 and n.targets[0].attr in ('_errHandler', 'errHandler'):
